@@ -197,6 +197,21 @@ func (e *env) barrier() {
 	b.Unblock()
 }
 
+// barrierWithin is barrier with a bound: false when the sync lock could not be taken in time.
+func (e *env) barrierWithin(d time.Duration) bool {
+	done := make(chan struct{})
+	go func() {
+		e.barrier()
+		close(done)
+	}()
+	select {
+	case <-done:
+		return true
+	case <-time.After(d):
+		return false
+	}
+}
+
 // waitSynced waits until each plugin has seen its Synchronize call, then for the
 // end of the registrations in flight.
 func (e *env) waitSynced(timeout time.Duration, ps ...*plug) error {
@@ -380,6 +395,12 @@ type plug struct {
 	synced   chan struct{}
 	syncOnce sync.Once
 
+	onConfigure func() // stub-based plugins: run inside the Configure handler (the plugin is registered, Start has not returned)
+
+	syncFail     string        // raw sessions: "" | error | hang | disconnect — how Synchronize fails
+	syncSeen     chan struct{} // closed when Synchronize is first called
+	syncSeenOnce sync.Once
+
 	mu     sync.Mutex
 	trace  []invocation
 	decide func(rq request) action
@@ -393,7 +414,7 @@ type plug struct {
 
 func newPlug(e *env, idx, base string, mask api.EventMask) *plug {
 	return &plug{e: e, idx: idx, base: base, name: idx + "-" + base, mask: mask, token: base,
-		synced: make(chan struct{}), closed: make(chan struct{})}
+		synced: make(chan struct{}), closed: make(chan struct{}), syncSeen: make(chan struct{})}
 }
 
 func (p *plug) setDecide(f func(rq request) action) {
@@ -464,6 +485,19 @@ func (p *plug) Configure(context.Context, *api.ConfigureRequest) (*api.Configure
 }
 
 func (p *plug) Synchronize(_ context.Context, req *api.SynchronizeRequest) (*api.SynchronizeResponse, error) {
+	p.syncSeenOnce.Do(func() { close(p.syncSeen) })
+	switch p.syncFail {
+	case "error":
+		return nil, errors.New("synchronization refused by the plugin")
+	case "hang":
+		time.Sleep(faultT * 5 / 2)
+		return &api.SynchronizeResponse{More: req.More}, nil
+	case "disconnect":
+		if p.raw != nil {
+			p.raw.kill()
+		}
+		return nil, errors.New("gone")
+	}
 	if !req.More {
 		p.syncOnce.Do(func() { close(p.synced) })
 	}
@@ -529,6 +563,9 @@ func (p *plug) StateChange(ctx context.Context, evt *api.StateChangeEvent) (*api
 type stubAdapter struct{ p *plug }
 
 func (a stubAdapter) Configure(context.Context, string, string, string) (api.EventMask, error) {
+	if a.p.onConfigure != nil {
+		a.p.onConfigure()
+	}
 	return a.p.mask, nil
 }
 func (a stubAdapter) Synchronize(context.Context, []*api.PodSandbox, []*api.Container) ([]*api.ContainerUpdate, error) {
